@@ -58,6 +58,8 @@ mod query_info;
 #[cfg(feature = "verif-hooks")]
 pub(crate) use query_info::verif_findnode_log2distance;
 mod test;
+#[cfg(feature = "verif-hooks")]
+pub mod verif;
 
 /// The number of distances (buckets) we simultaneously request from each peer.
 /// NOTE: This must not be larger than 127.
